@@ -5,7 +5,6 @@ import json, os, subprocess
 V = "/verif"
 
 NA = {
- "C06": "Jacobi/Gauss-Seidel fix-points over hash sets, closures and per-k caches over whole grammars; not encodable; the k-concatenation kernel is decided under C32",
  "C11": "string-keyed set/graph fix-points over whole grammars; 2-production symbolic probe did not leave symbolic execution in 30 min; corpus comparison against reference fix-points would be differential testing",
  "C14": "the real TokenBuffer is out of CBMC's reach: one concrete add + take_skip_tokens takes 460 s, a single add with a symbolic span did not finish in 700 s, LR reductions over real tokens did not finish in 25 min; whole parse runs (tree leaves) did not finish either; byte/line/column arithmetic lives in the external scnr2 crate. The gap-token and skip-classification pieces that could be decided are claimed under C16 (catch-all coverage) and C17 (classification kernel)",
  "C13": "implemented by the external scnr2 matcher on proc-macro generated DFAs; real scanner + stream did not finish a concrete 2-byte input in 15 min under CBMC; parol-side pieces are decided under C15/C16",
@@ -46,6 +45,10 @@ add("C05", TV,
     "G-kdec: the strong-LL(k) decision of the real parol, validated per grammar and lookahead limit K by a two-sentence conflict query in z3 over the transformed grammar (all pairs of sentences <= N): accepted - for every non-terminal with alternatives and its assigned k_A (read from the generated LOOKAHEAD_AUTOMATA) no two productions are applied under the same k_A upcoming tokens (unsat required), at k_A-1 such a pair exists (sat required: k_A is minimal), k_A <= K, k = 0 exactly for single-production non-terminals; rejected with 'Maximum lookahead exceeded' - `parol decidable` on the transformed grammar names at least one non-terminal, every named production pair has a sat overlap witness at K, every non-terminal not named is conflict-free at K.",
     G_NOTE + "; an unsat answer where a conflict is required raises an alarm only when exact reference FIRST_k/FOLLOW_k sets confirm that no conflict exists (otherwise listed as undecided within N); grammars above 36 productions are skipped; FIRST/FOLLOW sets themselves (C06) are not claimed",
     "strong-LL(k) conflict (overlap of k-lookahead sets) encoded as a bounded two-derivation SMT query (z3) over the grammar the real parol transformed, regenerated on every run; alarms confirmed by an exact set fix-point", "DESIGN.md §4 C05")
+add("C06", TV,
+    "The FIRST_k sets (per production and per non-terminal) and FOLLOW_k sets (per non-terminal) that the real `parol first` / `parol follow` print for the transformed grammar are compared with their definitions by z3 over all derivations <= N: completeness (unsat required) - no string derivable from X has a k-truncated prefix outside FIRST_k(X), no sentence has an occurrence of A followed by k tokens (end of input padded) outside FOLLOW_k(A); soundness (sat required per printed tuple) - every tuple is the k-prefix / k-follow of a derivation <= N.",
+    G_NOTE + "; one request per k and process: the order of cache requests across k (the 'histories' part of the property) is not varied and not claimed; a tuple without a witness <= N is an alarm only if exact reference sets do not contain it (else undecided within N); grammars above 30 productions are skipped",
+    "FIRST_k/FOLLOW_k membership encoded as bounded-derivation SMT queries (z3) over the grammar the real parol transformed and the sets it printed, regenerated on every run", "DESIGN.md §4 C06")
 add("C07", TV,
     "G-tab on the minimised automata the real generator writes (generated parser source, and the export model): completeness (unsat required: every production applied in any sentence <= N is the one the automaton predicts within its declared k), exactness (every accepting path justified by a sentence <= N; semi-decided, unjustified paths are reported not alarmed) and the structural contract (sorted, deterministic, dense, accepting states are leaves, depth <= k <= MAX_K, predicted productions belong to the non-terminal).",
     G_NOTE, "LL(k) table validity encoded in SMT (z3) over all sentences <= N per grammar and lookahead limit", "DESIGN.md §4 C07")
@@ -155,7 +158,7 @@ def main():
         "engines": [
             {"name": "K", "path": "/verif/kani", "kind_free_text": "Kani 0.68 / CBMC 6.11 bounded model checking of the compiled Rust of /repo (in-crate cfg(kani) harness modules + external harness crate)", "serves_properties": sorted(p for p in CHECKS if CHECKS[p]["category"] == "model_checking")},
             {"name": "R", "path": "/verif/engine_r", "kind_free_text": "z3 regular-expression theory over the regexes emitted by the real scanner-config generator", "serves_properties": [p for p in ("C15", "C16") if p in CHECKS]},
-            {"name": "G", "path": "/verif/engine_g", "kind_free_text": "bounded context-free language encodings (CYK-style SAT/SMT) regenerated from grammar sources and from the outputs of the real transformations / exported tables", "serves_properties": [p for p in ("C01", "C05", "C07", "C09", "C10", "C12", "C34") if p in CHECKS]},
+            {"name": "G", "path": "/verif/engine_g", "kind_free_text": "bounded context-free language encodings (CYK-style SAT/SMT) regenerated from grammar sources and from the outputs of the real transformations / exported tables", "serves_properties": [p for p in ("C01", "C05", "C06", "C07", "C09", "C10", "C12", "C34") if p in CHECKS]},
         ],
         "checks": checks,
         "not_applicable": na,
